@@ -51,12 +51,19 @@ func (c *Ctx) calleeEnvV(cc *ssa.CallCommon, g *ssa.Function, env Env, callVal s
 				continue
 			}
 			for i, res := range r.Results {
-				if a, ok := res.(*ssa.Alloc); ok {
-					if len(r.Results) > 1 {
-						ne[a] = fmt.Sprintf("%s#%d", base, i)
-					} else {
-						ne[a] = base
+				switch rv := res.(type) {
+				case *ssa.Alloc, *ssa.TypeAssert:
+				case *ssa.Extract:
+					if _, isTA := rv.Tuple.(*ssa.TypeAssert); !isTA {
+						continue
 					}
+				default:
+					continue
+				}
+				if len(r.Results) > 1 {
+					ne[res] = fmt.Sprintf("%s#%d", base, i)
+				} else {
+					ne[res] = base
 				}
 			}
 		}
